@@ -413,10 +413,15 @@ impl<'a> NtpPacket<'a> {
                     }
                 };
 
-                let (packet, cookie) = res_packet?;
+                // The draft identification must also match for packets that failed to
+                // decrypt, otherwise those would still be answered (with a NAK).
+                let packet = match &res_packet {
+                    Ok((packet, _)) | Err(ParsingError::DecryptError(packet)) => packet,
+                    Err(_) => return res_packet,
+                };
 
                 match packet.draft_id() {
-                    Some(id) if id == v5::DRAFT_VERSION => Ok((packet, cookie)),
+                    Some(id) if id == v5::DRAFT_VERSION => res_packet,
                     received @ (Some(_) | None) => {
                         tracing::debug!(
                             expected = v5::DRAFT_VERSION,
